@@ -34,51 +34,55 @@ func fullMatrix() []config {
 	for _, e := range []entryKind{entCall, entCreate} {
 		for _, g := range gasLevels {
 			for _, v := range valueLevels {
-				cs = append(cs, config{e, g, v, nil})
+				cs = append(cs, config{entry: e, gas: g, value: v})
 			}
 		}
 	}
 	for _, g := range gasLevels {
-		cs = append(cs, config{entStatic, g, 0, nil})
+		cs = append(cs, config{entry: entStatic, gas: g, value: 0})
 	}
 	for _, g := range []uint64{50000, 10000000} {
 		for _, v := range []int64{0, 1} {
-			cs = append(cs, config{entUTXOCall, g, v, nil})
+			cs = append(cs, config{entry: entUTXOCall, gas: g, value: v})
 		}
 		for _, v := range []int64{0, 1, 11} { // the origin holds 10 units of the token
-			cs = append(cs, config{entTokenCall, g, v, nil})
+			cs = append(cs, config{entry: entTokenCall, gas: g, value: v})
 		}
 	}
 	return cs
 }
 
-// reducedMatrix: used at the deepest sequence level only.
-func reducedMatrix() []config {
-	return []config{
-		{entCall, 1000000, 1, nil},
-		{entCreate, 1000000, 1, nil},
-		{entStatic, 1000000, 0, nil},
-		{entTokenCall, 50000, 1, nil},
+// reducedMatrix: used at the deepest sequence level only (4 configurations in the quick tier at depth 4,
+// 3 in the thorough tier at depth 5).
+func reducedMatrix(thorough bool) []config {
+	cs := []config{
+		{entry: entCall, gas: 1000000, value: 1},
+		{entry: entCreate, gas: 1000000, value: 1},
+		{entry: entTokenCall, gas: 50000, value: 1},
 	}
+	if !thorough {
+		cs = append(cs, config{entry: entStatic, gas: 1000000, value: 0})
+	}
+	return cs
 }
 
 func sweepMatrix() []config {
 	return []config{
-		{entCall, 10000000, 1, input36},
-		{entCall, 50000, 0, nil},
-		{entCreate, 10000000, 0, nil},
-		{entStatic, 10000000, 0, input36},
+		{entry: entCall, gas: 10000000, value: 1, input: input36},
+		{entry: entCall, gas: 50000, value: 0},
+		{entry: entCreate, gas: 10000000, value: 0},
+		{entry: entStatic, gas: 10000000, value: 0, input: input36},
 	}
 }
 
 func callMatrix() []config {
 	return []config{
-		{entCall, 10000000, 1, nil},
-		{entCall, 50000, 0, nil},
-		{entUTXOCall, 10000000, 1, nil},
-		{entCreate, 10000000, 1, nil},
-		{entStatic, 10000000, 0, nil},
-		{entTokenCall, 10000000, 1, nil},
+		{entry: entCall, gas: 10000000, value: 1},
+		{entry: entCall, gas: 50000, value: 0},
+		{entry: entUTXOCall, gas: 10000000, value: 1},
+		{entry: entCreate, gas: 10000000, value: 1},
+		{entry: entStatic, gas: 10000000, value: 0},
+		{entry: entTokenCall, gas: 10000000, value: 1},
 	}
 }
 
@@ -192,6 +196,7 @@ var (
 		{"2^64-1", pow2m1(64)}, {"2^64", pow2(64)}, {"2^255", pow2(255)}, {"2^256-1", max256}}
 	vals6 = []operand{{"0", nil}, {"1", []byte{1}}, {"0x20", []byte{0x20}}, {"2^32", pow2(32)}, {"2^64-1", pow2m1(64)}, {"2^256-1", max256}}
 	vals4 = []operand{{"0", nil}, {"1", []byte{1}}, {"0x20", []byte{0x20}}, {"2^256-1", max256}}
+	vals3 = []operand{{"0", nil}, {"0x20", []byte{0x20}}, {"2^256-1", max256}}
 	vals5 = []operand{{"0", nil}, {"1", []byte{1}}, {"0x20", []byte{0x20}}, {"2^64-1", pow2m1(64)}, {"2^256-1", max256}}
 )
 
@@ -225,9 +230,12 @@ func sweepPrograms(arity [256]int, thorough bool) []sweepProg {
 		case k == 4:
 			vals = vals6
 		case k <= 7:
-			vals = vals4
-			if thorough && k <= 6 {
-				vals = vals5
+			vals = vals3
+			if thorough {
+				vals = vals4
+				if k <= 6 {
+					vals = vals5
+				}
 			}
 		default:
 			vals = nil // DUPn / SWAPn with many operands: one vector per value (all operands equal)
@@ -317,7 +325,25 @@ type callProg struct {
 	spinner bool
 }
 
-func callPrograms() []callProg {
+func directTargets() []common.Address {
+	return []common.Address{aReverter, aInvalid, aStorer, aSuicider, aIssueLib, aIssuer, aCreator, aTokUser, aEmpty, aSmall01, aSmall02, aSmall03, aSmall04, aSmall20, aSmallFF, aOrigin}
+}
+
+func directMatrix() []config {
+	var cs []config
+	for _, g := range gasLevels {
+		for _, v := range valueLevels {
+			cs = append(cs, config{entry: entCall, gas: g, value: v}, config{entry: entUTXOCall, gas: g, value: v})
+		}
+		for _, v := range []int64{0, 1, 11} {
+			cs = append(cs, config{entry: entTokenCall, gas: g, value: v})
+		}
+		cs = append(cs, config{entry: entStatic, gas: g}, config{entry: entCall, gas: g, value: 1, input: input36})
+	}
+	return cs
+}
+
+func callPrograms(thorough bool) []callProg {
 	pres := []instr{
 		{"", nil},
 		{"SSTORE(0:=2)", cat(push1(2), push1(0), op(evm.SSTORE))},
@@ -350,8 +376,19 @@ func callPrograms() []callProg {
 			}
 		}
 	}
-	// two calls in a row (all-gas macros only), optionally reverting at the end
+	// two calls in a row (all-gas macros only), optionally reverting at the end. The quick tier leaves out the
+	// value-0xff and CALLCODE-v0 variants and the self target here (two self-calls per frame open ~14000 frames).
 	two := callSymbols([]int{gasAll})
+	if !thorough {
+		var keep []callSym
+		for _, c := range two {
+			if strings.Contains(c.name, "(self,") || strings.Contains(c.name, ",v255,") || strings.HasPrefix(c.name, "CALLCODE") && strings.Contains(c.name, ",v0,") {
+				continue
+			}
+			keep = append(keep, c)
+		}
+		two = keep
+	}
 	for _, c1 := range two {
 		for _, c2 := range two {
 			for _, post := range posts[:2] {
@@ -385,7 +422,7 @@ func depthPrograms() []callProg {
 func depthMatrix() []config {
 	var cs []config
 	for _, g := range []uint64{10000000, 1 << 40, 1<<63 - 1, 1<<64 - 1} {
-		cs = append(cs, config{entCall, g, 0, nil}, config{entCreate, g, 0, nil}, config{entStatic, g, 0, nil})
+		cs = append(cs, config{entry: entCall, gas: g, value: 0}, config{entry: entCreate, gas: g, value: 0}, config{entry: entStatic, gas: g, value: 0})
 	}
 	return cs
 }
